@@ -383,7 +383,7 @@ func TestC42(t *testing.T) {
 	} {
 		c.Floor(k, v)
 	}
-	n := c.N(8, 12)
+	n := c.N(8, 30)
 	seen := map[string]int{}
 	for i := 0; i < n; i++ {
 		if c.SkipCase(i) {
